@@ -22,7 +22,7 @@ RULE = ("four kinds of generated cases on C03 systems with repeated molecule nam
 ASSUMPTIONS = ["a [ molecule ] block that also covers indices of other molecule names must leave those molecules "
                "untouched (and must not be rejected because of them)",
                "time-outs are inconclusive"]
-BUDGET = {"quick": (16, 30), "thorough": (16, 1200)}
+BUDGET = {"quick": (16, 60), "thorough": (16, 1200)}
 
 
 def _mol_names(spec):
@@ -113,8 +113,12 @@ def _start_case(draw):
 def _lig_case(draw):
     spec = draw(gc.system(max_moltypes=2, max_res=5, max_total_mol=3, allow_vs=False))
     types = [a["name"] for a in spec["atomtypes"]]
-    lig_res = {"resname": "W", "atoms": [{"name": "w", "type": types[0], "mass": 18.0}], "bonds": [], "vs": None}
-    spec["moltypes"].append({"name": "SOL", "residues": [lig_res], "res_edges": [], "shape": "linear"})
+    # the ligand molecule has one to three one-bead residues; a specification without residue part selects all
+    nlres = draw(st.sampled_from([1, 2, 3]))
+    lig_residues = [{"resname": rn, "atoms": [{"name": rn.lower(), "type": types[0], "mass": 18.0}], "bonds": [], "vs": None}
+                    for rn in ["W", "V", "U"][:nlres]]
+    spec["moltypes"].append({"name": "SOL", "residues": lig_residues,
+                             "res_edges": [[i, i + 1] for i in range(nlres - 1)], "shape": "linear"})
     nlig = draw(st.integers(1, 3))
     pos = draw(st.integers(0, len(spec["molecules"])))
     spec["molecules"].insert(pos, ["SOL", nlig])
@@ -127,11 +131,12 @@ def _lig_case(draw):
     lig = draw(st.sampled_from([i for i, n in enumerate(names) if n == "SOL"]))
     with_resname = draw(st.booleans())
     host_spec = f"{names[host]}#{host}-{hmt['residues'][ridx]['resname'] if with_resname else ''}#{ridx + 1}"
-    lig_spec = f"SOL#{lig}" if draw(st.booleans()) else f"SOL#{lig}-W#1"
+    whole = draw(st.integers(0, 2)) > 0
+    lig_spec = f"SOL#{lig}" if whole else f"SOL#{lig}-W#1"
     edge = gc.dilute_box(spec)
     spec["opts"] = {"box": [edge, edge, edge], "ligands": [[host_spec, lig_spec]],
                     "step_fudge": draw(st.sampled_from([0.8, 1.0]))}
-    spec["lig"] = {"host": host, "host_resid": ridx + 1, "lig": lig}
+    spec["lig"] = {"host": host, "host_resid": ridx + 1, "lig": lig, "lig_resids": list(range(1, nlres + 1)) if whole else [1]}
     spec["kind"] = "lig"
     return spec
 
@@ -445,19 +450,23 @@ def check_lig(spec, ctx, res, topo, names):
     host = topo.molecules[lig["host"]]
     hnode = [n for n in host.nodes if host.nodes[n]["resid"] == lig["host_resid"]][0]
     lmol = topo.molecules[lig["lig"]]
-    lnode = next(iter(lmol.nodes))
-    d = float(np.linalg.norm(min_image(np.array(lmol.nodes[lnode]["position"]) - np.array(host.nodes[hnode]["position"]), box)))
     sf = spec["opts"].get("step_fudge", 1.0)
     size_h = topo.volumes[host.nodes[hnode].get("template", host.nodes[hnode]["resname"])]
-    size_l = topo.volumes[lmol.nodes[lnode].get("template", lmol.nodes[lnode]["resname"])]
-    want = sf * 0.5 * (size_h + size_l)
-    if abs(d - want) > 1e-6 * max(1.0, want):
-        raise Violation("ligand:not_one_step_from_host", f"ligand molecule {lig['lig']} is {d:.5f} nm from residue {lig['host_resid']} of molecule "
-                                                         f"{lig['host']}, one step is {want:.5f}")
-    # the ligand's atoms follow its residue position
-    atoms = [lmol.molecule.nodes[a]["position"] for a in lmol.molecule.nodes]
-    if np.max(np.abs(np.mean(atoms, axis=0) - np.array(lmol.nodes[lnode]["position"]))) > 1e-6:
-        raise Violation("ligand:atoms_not_at_ligand_position", "backmapped ligand atoms are not centred on the ligated position")
+    for lnode in lmol.nodes:
+        if lmol.nodes[lnode]["resid"] not in lig.get("lig_resids", [1]):
+            continue
+        d = float(np.linalg.norm(min_image(np.array(lmol.nodes[lnode]["position"]) - np.array(host.nodes[hnode]["position"]), box)))
+        size_l = topo.volumes[lmol.nodes[lnode].get("template", lmol.nodes[lnode]["resname"])]
+        want = sf * 0.5 * (size_h + size_l)
+        if abs(d - want) > 1e-6 * max(1.0, want):
+            raise Violation("ligand:not_one_step_from_host", f"residue {lmol.nodes[lnode]['resid']} of ligand molecule {lig['lig']} is {d:.5f} nm "
+                                                             f"from residue {lig['host_resid']} of molecule {lig['host']}, one step is {want:.5f}")
+        # the ligand's atoms follow its residue position
+        atoms = [lmol.molecule.nodes[a]["position"] for a in lmol.nodes[lnode]["graph"].nodes]
+        if np.max(np.abs(np.mean(atoms, axis=0) - np.array(lmol.nodes[lnode]["position"]))) > 1e-6:
+            raise Violation("ligand:atoms_not_at_ligand_position", "backmapped ligand atoms are not centred on the ligated position")
+    if len(lig.get("lig_resids", [1])) > 1:
+        ctx.label("several_ligand_residues")
     ctx.label("ligand")
     ctx.nontrivial = True
 
